@@ -105,6 +105,15 @@ def make_actor(table_path: str, op: Dict[str, Any], shared_table: Any = None, st
                 tx.append_data(op["rows"])
                 tx.commit()
             return "ok"
+        if k == "replace_txn":
+            # ONE transaction that deletes a file of the current snapshot and appends replacement rows (local tables)
+            st_ = read_table_independent(table_path)
+            victim = st_["snapshots"][st_["current"]]["files"][0]
+            with t.new_transaction() as tx:
+                tx.delete_files([victim])
+                tx.append_data(op["rows"])
+                tx.commit()
+            return "ok"
         if k == "expire":
             with t.new_transaction() as tx:
                 tx.expire_snapshots(op["cutoff"])
